@@ -830,6 +830,7 @@ class Interp(object):
             st = LoopState(self, env, SInt(k))
             st.k0 = SInt(k0)
             st.x = x
+            st.trace_start = len(self.trace)
             try:
                 self.exec_block(node.body, env)
             except _Continue:
